@@ -78,8 +78,45 @@ func propC05(r *kernel.Run) {
 		}
 	}
 
+	removed := map[string]bool{}
+	inStorage := func(l []*Ident) []*Ident {
+		var out []*Ident
+		for _, id := range l {
+			if !removed[id.KeyId] {
+				out = append(out, id)
+			}
+		}
+		return out
+	}
 	ncases := tp.Range(6, 20)
 	for ci := 0; ci < ncases; ci++ {
+		// register/remove history: the operator removes a record (or restores a removed one) between requests
+		if tp.Draw(6) == 0 {
+			all := append(append(append([]*Ident{}, underN...), underM...), plain...)
+			v := all[tp.Draw(len(all))]
+			if removed[v.KeyId] {
+				nid := ""
+				for _, x := range underN {
+					if x == v {
+						nid = "node-N"
+					}
+				}
+				for _, x := range underM {
+					if x == v {
+						nid = "node-M"
+					}
+				}
+				registerNode(r, w, v, nid)
+				delete(removed, v.KeyId)
+				r.Count("ops.reregister_node", 1)
+			} else {
+				if err := w.Inner.Remove(w.Ctx, &types.NodeInformation{Id: v.KeyId}); err != nil {
+					r.HarnessErr("remove: %v", err)
+				}
+				removed[v.KeyId] = true
+				r.Count("ops.remove_node", 1)
+			}
+		}
 		// who claims to connect (certificate key in the request)
 		claimPool := append(append(append([]*Ident{}, underN...), underM...), plain...)
 		claimPool = append(claimPool, unreg)
@@ -134,11 +171,11 @@ func propC05(r *kernel.Run) {
 		if nodeIDHint != "" && loader {
 			switch nodeIDHint {
 			case "node-N":
-				scope = underN
+				scope = inStorage(underN)
 			case "node-M":
-				scope = underM
+				scope = inStorage(underM)
 			}
-		} else if id := byKeyID[claim.KeyId]; id != nil {
+		} else if id := byKeyID[claim.KeyId]; id != nil && !removed[id.KeyId] {
 			scope = []*Ident{id}
 		}
 		verifies := func(rec *Ident) bool {
